@@ -51,3 +51,23 @@ Theorem generated_never_stuck :
   exists c', stepN (contracts_C12 program) c c'.
 Proof. exact (program_never_stuck _ _ _ _ _ no_broker_lock_at_user_callback_obligation). Qed.
 Print Assumptions generated_never_stuck.
+
+(* no blocking wait that is not a mutex operation (sync.WaitGroup.Wait, sync.Cond.Wait, channel send / receive, select without
+   default) is reachable while Broker.lock or a graph's threshold lock is held in any mode: such a wait may depend on an
+   in-flight Send whose node calls back into the Broker *)
+Definition wait_complaints := Eval vm_compute in
+  flat_complaints (check_program (contracts_C12_waits program) program entries lit_callees unsupported).
+Print wait_complaints.
+Theorem no_blocking_wait_under_registry_lock :
+  check_program (contracts_C12_waits program) program entries lit_callees unsupported = [].
+Proof. vm_compute. reflexivity. Qed.
+Theorem generated_no_registry_lock_at_blocking_wait :
+  forall fn body t x ds', thread (contracts_C12_waits program) (fenv_of (reachable program entries)) fn body ->
+    run (fenv_of (reachable program entries)) fn body [] t x ds' -> is_brk x = false ->
+  forall i fn' k l, nth_error (t ++ tag fn ds') i = Some (fn', EA (User k)) -> is_wait k = true -> In l [L_broker; L_thr] ->
+    lookup l (held_at [] (t ++ tag fn ds') i) = None.
+Proof.
+  intros fn body t x ds' Hth Hrun Hx i fn' k l Hn Hw Hl.
+  apply (program_callback_never_under _ _ _ _ _ no_blocking_wait_under_registry_lock _ _ _ _ _ Hth Hrun Hx _ _ _ _ Hn).
+  cbn [user_acquires contracts_C12_waits mk]. unfold wait_acq. rewrite Hw. exact Hl.
+Qed.
